@@ -1419,3 +1419,35 @@ def nudge_edges(x, me, rel=1e-9):
         scale = max(abs(v), 1.0)
         y = torch.where((x - v).abs() <= 8 * eps * scale, torch.full_like(x, v + d * rel * scale), y)
     return y
+
+
+# ---------------------------------------------------------------- the same object, other values
+def reseed_cfg(cfg):
+    """the same configuration with other constructor-given VALUES (scales / shifts, permutations) where those live in buffers"""
+    if isinstance(cfg, dict):
+        out = {k: reseed_cfg(v) for k, v in cfg.items()}
+        if cfg.get("fam") in ("pointwise_affine", "permutation") and "pseed" in cfg and cfg.get("kind") != "reverse":
+            out["pseed"] = cfg["pseed"] + 1
+        return out
+    if isinstance(cfg, list):
+        return [reseed_cfg(v) for v in cfg]
+    return cfg
+
+
+def revalued(cfg, model, me, seed, B):
+    """An object of the same configuration that was built and CALLED (both directions) holding other values and then received
+    `model`'s values through load_state_dict - "for every parameter value" includes values that arrive after the first call.
+    Anything memoised from the first values (log-dets, inverse permutations, folded masks ...) is stale in the returned object."""
+    import torch
+    other = make(reseed_cfg(cfg), "randn0.3", seed + 5)
+    xo = sample_inputs(me, B, seed + 7, structured="one")
+    co = sample_context(me, B, seed + 8)
+    with torch.no_grad():
+        yo = other(xo, co)[0]
+        try:
+            other.inverse(yo, co)
+        except Exception:
+            pass
+    other.load_state_dict(model.state_dict())
+    other.train(model.training)
+    return other
